@@ -54,6 +54,17 @@ def enumerate_cases(tier):
             "docs": [{"pat": "3c6d", "n": HUGE}, {"hex": "3c6e65772f3e"}], "short_writes": False, "huge": True}
     for kind in ("dii_unref_wrong", "delete_sole", "dmeta_one", "smeta_overwrite"):
         yield dict(base, kind=kind, start=scen.prerequisites(kind), target=scen.target_op(kind, 0))
+    # "during any API call" - also one whose file-system operation fails: the k-th rename / replace / link of the call takes
+    # effect and then reports EIO (a lost reply), or fails plainly; whatever the call does next (retry, clean-up, roll-back) is
+    # observed at every boundary like the rest of it
+    small = {"cfg": {"algo": "SHA-256", "depth": 2, "width": 2}, "contents": [{"pat": "6f62", "n": 2 * 8192 + 3}, {"hex": "79"}],
+             "docs": [{"pat": "3c6f", "n": 2 * 8192 + 5}, {"pat": "3c6e", "n": 8192 + 1}], "short_writes": False}
+    for kind in ("smeta_overwrite", "smeta_new", "store_new", "store_additional", "tag_unref", "delete_with_meta"):
+        # (only "late": a rename that plainly FAILS makes shutil.move fall back to copy + unlink - the degradation of a staging area
+        #  on another file system, which the property's anchor excludes; HEAD then writes the document in place, DESIGN section 8)
+        for mode in ("late",):
+            for k in range(8):
+                yield dict(small, kind=kind, start=scen.prerequisites(kind), target=scen.target_op(kind, 0), fault_mode=mode, fault_k=k)
 
 
 def case_cost(case):
@@ -130,7 +141,18 @@ def run_case(case, ctx):
         except Violation as v:
             pending.append(v)
 
-    with fsi.active(d, guarded) as fctx:
+    inj = None
+    cb = guarded
+    if case.get("fault_mode"):
+        from .. import fault
+        inj = fault.Injector(d, case["fault_k"], "EIO", "late" if case["fault_mode"] == "late" else False)
+
+        def cb(ev):
+            guarded(ev)
+            inj(ev)
+    with fsi.active(d, cb) as fctx:
+        if inj is not None and case["fault_mode"] == "late":
+            fctx.after_path_op = inj.after
         if case.get("short_writes"):
             # environment variant: every unbuffered / fd-level write takes only part of what it is given
             fctx.write_hook = lambda n: max(1, n - max(1, n // 3))
@@ -138,6 +160,12 @@ def run_case(case, ctx):
     if pending:
         raise pending[0]
     observe(None)
+    if inj is not None:
+        if inj.fired is None:
+            ctx.classify("fault-site-index-beyond-the-call")
+            return
+        ctx.classify("observed-under-" + case["fault_mode"] + "-failure")
+        ctx.nontrivial([case["kind"], case["fault_mode"], case["fault_k"], inj.fired.kind, "ok" if is_ok(out) else out[1]])
     ctx.classify("target=" + case["kind"])
     ctx.classify("outcome=" + ("ok" if is_ok(out) else out[1]))
     if big:
